@@ -65,6 +65,7 @@ const (
 	fGhostSeq  = -21
 	fGhostCap  = -22
 	fGhostMap  = -23
+	fMapPresent = -24
 )
 
 const maxLen = 1 << 48
